@@ -197,7 +197,7 @@ func c16Exec(op string) string {
 		}
 	}
 	for k := uint64(0); k < 2; k++ {
-		tx := mxj.Map(retype(m, hashStr(op)+k, "MYSL", 0).(map[string]interface{}))
+		tx := mxj.Map(retype(m, hashStr(op)+k, "MYSLB", 0).(map[string]interface{}))
 		b1, err1 := tx.Xml()
 		b2, _ := tx.Xml()
 		switch {
